@@ -30,6 +30,17 @@ def proj(o):
     return json.dumps(['value', o], ensure_ascii=True, default=str, sort_keys=isinstance(o, dict))
 
 
+class Unreadable(Exception):
+    """Reading a pool object or a result through the library's own accessors raised: the object is broken, the worker is not."""
+
+
+def rproj(o):
+    try:
+        return proj(o)
+    except Exception as e:  # noqa
+        raise Unreadable(type(e).__name__)
+
+
 def plain(x):
     """Projection of a returned plain value (sets are compared as sets, dicts as key-sorted lists)."""
     if isinstance(x, (set, frozenset)):
@@ -210,7 +221,7 @@ def replay(h, pool=None):
     for c in h['hist']:
         if NOISE:
             noise(rng)
-        before = [proj(o) for o in pool]
+        before = [rproj(o) for o in pool]
         again = None
         rng.seed(json.dumps(c))
         try:
@@ -220,7 +231,7 @@ def replay(h, pool=None):
         if ok:
             if c['op'] in POOLED:
                 pool.append(r)
-                res = proj(r)
+                res = rproj(r)
             else:
                 res = json.dumps(['value', plain(r)], ensure_ascii=True)
                 if not InPlaceOps.__contains__(c['op']):
@@ -235,7 +246,7 @@ def replay(h, pool=None):
             res = 'EXC:' + type(r).__name__
             if c['op'] in POOLED:
                 pool.append(penman.Graph() if dr_result_type(c['op']) == 'graph' else penman.Tree(('x', [])))
-        after = [proj(o) for o in pool]
+        after = [rproj(o) for o in pool]
         steps.append({'before': before, 'after': after, 'result': res, 'again': again if again is not None else res})
     return steps
 
@@ -247,7 +258,14 @@ def dr_result_type(op):
 def _mp_replay(job):
     # the pool was built in the parent and arrives here pickled: its markers are no longer the parent's singletons
     h, pool = job
-    return replay(h, pool)
+    return safe_replay(h, pool)
+
+
+def safe_replay(h, pool=None):
+    try:
+        return replay(h, pool)
+    except Unreadable as e:
+        return {'exc': 'a result or an object of the pool cannot be read any more (%s)' % e, 'steps': []}
 
 
 def main():
@@ -259,7 +277,7 @@ def main():
         with multiprocessing.get_context('fork').Pool(2) as p:
             logs = p.map(_mp_replay, [(h, initial_pool(h['pool_seed'])) for h in hs])
     else:
-        logs = [replay(h) for h in hs]
+        logs = [safe_replay(h) for h in hs]
     for log in logs:
         sys.stdout.write(json.dumps(log, ensure_ascii=True) + '\n')
 
